@@ -289,6 +289,13 @@ def write_evidence(prop, eng, tier, seed, agg, wall, nviol, known_hits, extra_co
         'known_findings_observed': {k: n for k, (_, n) in known_hits.items()},
         'batch_digest': rng.digest(sorted(agg['digests'])),
     }
+    try:
+        with open(os.path.join(VERIF, 'selftest_result.json')) as fp:
+            st = json.load(fp)
+        cov['determinism_selftest'] = {'all_identical': st.get('all_identical'),
+                                       'this_engine': st.get('determinism', {}).get(prop), 'method': st.get('method')}
+    except (OSError, ValueError):
+        pass
     if extra_cov:
         cov.update(extra_cov)
     ev = {
